@@ -30,6 +30,8 @@ def run(prop, tier):
         for it in items:
             if it['cfg']['fmt'] == 'wind' and not it['cfg']['hdr3']:
                 continue    # the writer produces the three-word time record
+            if it['cfg'].get('nz0'):
+                continue    # the writer produces the layer count of the data
             for etf in (True, False):
                 it2 = dict(it)
                 it2['cfg'] = dict(it['cfg'], with_etflag=etf)
